@@ -19,7 +19,7 @@ pub struct C13;
 #[derive(Serialize, Deserialize, Debug, Clone)]
 pub struct Pair {
     pub id: u64,
-    /// "Grmtools" | "Generic" | "NoAction"
+    /// "Grmtools" | "UserAction" | "Generic" | "NoAction" | "LexOnly"
     pub kind: String,
     pub ytext: String,
     pub ltext: String,
@@ -42,6 +42,7 @@ fn render_y(ag: &AG, kind: &str, settings: &serde_json::Map<String, Value>) -> S
             items.push(match kind {
                 "Grmtools" => "yacckind: Grmtools".to_string(),
                 "NoAction" => "yacckind: Original(NoAction)".to_string(),
+                "UserAction" => "yacckind: Original(UserAction)".to_string(),
                 _ => "yacckind: Original(GenericParseTree)".to_string(),
             });
         }
@@ -51,6 +52,23 @@ fn render_y(ag: &AG, kind: &str, settings: &serde_json::Map<String, Value>) -> S
         s.push_str(&format!("%grmtools{{{}}}\n", items.join(", ")));
     }
     s.push_str(&format!("%start {}\n", ag.rules[ag.start].name));
+    let actions = kind == "Grmtools" || kind == "UserAction";
+    let param = if actions { settings.get("param").and_then(|v| v.as_str()).unwrap_or("none") } else { "none" };
+    let unit: Vec<bool> = settings
+        .get("unit_rules")
+        .and_then(|v| v.as_array())
+        .map(|a| a.iter().map(|b| b.as_bool().unwrap_or(false)).collect())
+        .unwrap_or_default();
+    let is_unit = |r: usize| kind == "Grmtools" && unit.get(r).copied().unwrap_or(false);
+    if kind == "UserAction" {
+        s.push_str("%actiontype String\n");
+    }
+    match param {
+        "u64" => s.push_str("%parse-param p: u64\n"),
+        "log" => s.push_str("%parse-param log: &::std::cell::RefCell<Vec<String>>\n"),
+        "generic" => s.push_str("%parse-generics 'a, T: ::std::fmt::Debug + Clone\n%parse-param p: &'a T\n"),
+        _ => {}
+    }
     if !ag.avoid_insert.is_empty() {
         s.push_str("%avoid_insert");
         for t in &ag.avoid_insert {
@@ -78,10 +96,10 @@ fn render_y(ag: &AG, kind: &str, settings: &serde_json::Map<String, Value>) -> S
     s.push_str(&ag.tokens[0]);
     s.push_str("' \"pretty \\\"0\\\"\"\n%%\n");
     let mut pidx = 0;
-    for r in &ag.rules {
+    for (ri, r) in ag.rules.iter().enumerate() {
         s.push_str(&r.name);
         if kind == "Grmtools" {
-            s.push_str(" -> String");
+            s.push_str(if is_unit(ri) { " -> ()" } else { " -> String" });
         }
         s.push(':');
         for (i, p) in r.prods.iter().enumerate() {
@@ -97,25 +115,40 @@ fn render_y(ag: &AG, kind: &str, settings: &serde_json::Map<String, Value>) -> S
             if let Some(t) = p.prec {
                 s.push_str(&format!(" %prec '{}'", ag.tokens[t]));
             }
-            if kind == "Grmtools" {
+            if actions {
                 // the fixed action template (its native twin lives in ctbatch/src/main.rs)
                 s.push_str(&format!(" {{ let mut s = String::new(); s.push_str(\"p{pidx}[\"); s.push_str(&format!(\"{{}}..{{}} $$ \", $span.start(), $span.end()));"));
+                match param {
+                    "u64" => s.push_str(" s.push_str(&format!(\"P{} \", p));"),
+                    "generic" => s.push_str(" s.push_str(&format!(\"P{:?} \", p));"),
+                    _ => {}
+                }
                 for (k, sy) in p.syms.iter().enumerate() {
                     let n = k + 1;
                     match sy {
                         Sym::T(_) => s.push_str(&format!(
                             " match ${n} {{ Ok(l) => s.push_str(&format!(\"T{{}}:{{:?}},\", l.tok_id(), $lexer.span_str(l.span()))), Err(l) => s.push_str(&format!(\"E{{}}@{{}},\", l.tok_id(), l.span().start())) }};"
                         )),
+                        Sym::R(x) if is_unit(*x) => s.push_str(&format!(" let _: () = ${n}; s.push_str(\"(),\");")),
                         Sym::R(_) => s.push_str(&format!(" s.push_str(&${n}); s.push(',');")),
                     }
                 }
-                s.push_str(" s.push(']'); s }");
+                s.push_str(" s.push(']');");
+                if param == "log" {
+                    s.push_str(if ch_layout(pidx) { "\n      log.borrow_mut().push(s.clone());" } else { " log.borrow_mut().push(s.clone());" });
+                }
+                s.push_str(if is_unit(ri) { " drop(s); }" } else { " s }" });
             }
             pidx += 1;
         }
         s.push_str("\n  ;\n");
     }
     s
+}
+
+/// some action bodies span several lines
+fn ch_layout(pidx: usize) -> bool {
+    pidx % 3 == 1
 }
 
 fn render_l(ag: &AG, settings: &serde_json::Map<String, Value>) -> String {
@@ -157,8 +190,22 @@ pub fn gen_pair(ch: &mut Choices, id: u64) -> Option<Pair> {
     if table_loop_witness(&b).is_some() {
         return None;
     }
-    let kind = ch.choose(&["Grmtools", "Generic", "Grmtools", "NoAction"]).to_string();
+    let kind = ch.choose(&["Grmtools", "Generic", "Grmtools", "NoAction", "UserAction", "Grmtools"]).to_string();
     let mut settings = serde_json::Map::new();
+    if kind == "Grmtools" || kind == "UserAction" {
+        // %parse-param: absent / by value / a shared log every action appends to / behind %parse-generics
+        let param = *ch.choose(&["none", "log", "u64", "log", "generic"]);
+        if param != "none" {
+            settings.insert("param".into(), json!(param));
+        }
+        if kind == "Grmtools" && param == "log" && ch.chance(1, 2) {
+            // some rules (never the start rule) have the unit type: their actions are only visible in the log
+            let unit: Vec<bool> = (0..ag.rules.len()).map(|r| r != ag.start && ch.chance(1, 2)).collect();
+            if unit.iter().any(|b| *b) {
+                settings.insert("unit_rules".into(), json!(unit));
+            }
+        }
+    }
     if ch.chance(1, 3) {
         settings.insert("yacckind_in_header".into(), json!(true));
     }
@@ -382,7 +429,7 @@ pub fn custom_run(cfg: &RunCfg) -> i32 {
     let t0 = std::time::Instant::now();
     let engine = cfg.root.join("engine");
     let nbatches = cfg.tier.pick(1, 10);
-    let per_batch = cfg.tier.pick(40, 60);
+    let per_batch = cfg.tier.pick(100, 120);
     let mut all_mismatches: Vec<(Pair, Value)> = vec![];
     let mut programs = 0u64;
     let mut comparisons = 0u64;
@@ -408,7 +455,7 @@ pub fn custom_run(cfg: &RunCfg) -> i32 {
         let mut pairs: Vec<Pair> = if bi == 0 { replay_pairs.clone() } else { vec![] };
         let mut k = 0u64;
         let mut attempts = 0u64;
-        while (pairs.len() as u64) < per_batch as u64 + if bi == 0 { replay_pairs.len() as u64 } else { 0 } && attempts < 400 {
+        while (pairs.len() as u64) < per_batch as u64 + if bi == 0 { replay_pairs.len() as u64 } else { 0 } && attempts < 1200 {
             attempts += 1;
             let s = stream(hash64(&format!("{}/C13/{bi}/{attempts}", cfg.seed)), 500);
             let mut ch = Choices::new(&s);
@@ -487,7 +534,7 @@ pub fn custom_run(cfg: &RunCfg) -> i32 {
             "disagreements_checked": comparisons,
             "evaluations": comparisons,
             "distinct_nontrivial": nontrivial.len(),
-            "rule": "Pairs (grammar, lexer) whose token names agree: AG from strata rand/expr/lr1/repo (cycle-free, loop-free tables, random precedence and %avoid_insert), kinds Grmtools (user actions from a fixed template recording production, $span, every $i as Ok/Err lexeme or child string, $lexer and $$), Original(GenericParseTree), Original(NoAction); settings sampled: yacckind through builder or %grmtools header, recoverer CPCT+/None through builder and/or header, serialisation format, Rust edition, visibility, lexer flags through builder or header; 7 inputs per pair (sentences, near misses, upper-cased words, multi-line skip text, a lexing error). One cargo build of engine/ctbatch runs the real CTLexerBuilder/CTParserBuilder per pair in its build script; its binary lexes and parses every input with the generated modules and with LRNonStreamingLexerDef/RTParserBuilder built from the same source strings (user actions evaluated natively) and compares lexemes, value/tree, errors with repair sets, token_epp, R_*/N_* constants; each module's first parse is also made by 8 barrier-released threads (C15). programs = pairs compiled and run; disagreements_checked = comparisons. Besides the pairs, 60 (thorough: 80 per batch) lexer-only items: a specification from the lexer generators of C09/C11 (start states with push/pop/replace targets, <..> prefixes, every kind of escape, flags in a %grmtools section or - one third - through the builder's flag methods, varied rendering) built by CTLexerBuilder with a user-supplied rule_ids_map; the generated module's definition (rules: id, name, expression, start states, target; start states) and its lexemes on 6 inputs sampled from the rules must equal those of LRNonStreamingLexerDef::from_str + set_rule_ids on the same text, and one side refusing what the other accepts is a mismatch. Non-trivial pair: non-default setting or an input with a lexing error, or a lexer-only item; distinct by hash(sources).",
+            "rule": "Pairs (grammar, lexer) whose token names agree: AG from strata rand/expr/lr1/repo (cycle-free, loop-free tables, random precedence and %avoid_insert), kinds Grmtools and Original(UserAction) (user actions from a fixed template recording production, $span, every $i as Ok/Err lexeme or child string, $lexer and $$; %parse-param absent / a u64 by value / a shared RefCell log every action appends to / a reference behind %parse-generics; with the log, some Grmtools rules have the unit action type so that their actions are visible only in the log; every third action body spans two lines), Original(GenericParseTree), Original(NoAction); settings sampled: yacckind through builder or %grmtools header, recoverer CPCT+/None through builder and/or header, serialisation format, Rust edition, visibility, lexer flags through builder or header; 7 inputs per pair (sentences, near misses, upper-cased words, multi-line skip text, a lexing error). One cargo build of engine/ctbatch runs the real CTLexerBuilder/CTParserBuilder per pair in its build script; its binary lexes and parses every input with the generated modules and with LRNonStreamingLexerDef/RTParserBuilder built from the same source strings (user actions evaluated natively) and compares lexemes, value/tree, errors with repair sets, token_epp, R_*/N_* constants; each module's first parse is also made by 8 barrier-released threads (C15). programs = pairs compiled and run; disagreements_checked = comparisons. Besides the pairs, 60 (thorough: 80 per batch) lexer-only items: a specification from the lexer generators of C09/C11 (start states with push/pop/replace targets, <..> prefixes, every kind of escape, flags in a %grmtools section or - one third - through the builder's flag methods, varied rendering) built by CTLexerBuilder with a user-supplied rule_ids_map; the generated module's definition (rules: id, name, expression, start states, target; start states) and its lexemes on 6 inputs sampled from the rules must equal those of LRNonStreamingLexerDef::from_str + set_rule_ids on the same text, and one side refusing what the other accepts is a mismatch. Non-trivial pair: non-default setting or an input with a lexing error, or a lexer-only item; distinct by hash(sources).",
             "samples": samples,
             "classes": classes,
             "replayed": replay_pairs.len(),
